@@ -574,3 +574,40 @@ def unit_F2_models(tier):
 
 
 UNITS["F2m"] = unit_F2_models
+
+
+# ------------------------------------------------------------------------------------------ F8 dependency frame (C08)
+# strategies whose query legitimately looks at the raw `candidates` again after _transform_candidates (they get a dedicated
+# treatment in the bounded stand-in of C08); every other strategy must be a function of (X_cand, mapping) only
+F8_ALLOW = {"Badge", "ExpectedErrorReduction", "MonteCarloEER", "ValueOfInformationEER", "SubSamplingWrapper", "ParallelUtilityEstimationWrapper"}
+
+
+def unit_F8(tier):
+    repo = get_repo()
+    obs = []
+    for ci in pool_query_classes(repo):
+        if "query" not in ci.methods or "SingleAnnotatorPoolQueryStrategy" not in repo.mro(ci.name):
+            continue
+        fn = ci.methods["query"]
+        idx = None
+        for i, s in enumerate(fn.body):
+            if any(isinstance(x, ast.Call) and isinstance(x.func, ast.Attribute) and x.func.attr == "_transform_candidates" for x in ast.walk(s)):
+                idx = i
+                break
+        if idx is None:
+            continue
+        bad = []
+        for s in fn.body[idx + 1:]:
+            for x in ast.walk(s):
+                if isinstance(x, ast.Name) and x.id == "candidates" and isinstance(x.ctx, ast.Load):
+                    bad.append({"file": ci.file, "line": x.lineno, "qualname": f"{ci.name}.query", "kind": "reads-raw-candidates",
+                                "text": unparse(s)[:80], "origins": ["candidates"]})
+        if ci.name in F8_ALLOW:
+            continue
+        obs.append(ob(f"F8.{ci.name}.query", not bad, bad,
+                      f"after _validate_data/_transform_candidates, {ci.name}.query does not read the raw `candidates` again "
+                      "(so None and the unlabeled indices, which yield equal (X_cand, mapping, batch size, generator), give equal results)"))
+    return result("frames.F8", "skactiveml/pool/**: query of every single-annotator pool strategy", obs)
+
+
+UNITS["F8"] = unit_F8
